@@ -554,6 +554,12 @@ func driveLRU(opt *Options) error {
 		variant := variants[t%3]
 		nilDelete := t%11 == 10
 		c := caps[rnd.Intn(len(caps))]
+		steps := steps
+		if t%20 == 19 && opt.Extra["caps"] == "" {
+			// capacities beyond anything the model enumerates (internal thresholds, counters): a few long traces
+			c = []int{100, 257, 1000}[rnd.Intn(3)]
+			steps = 3 * c
+		}
 		nilCreate := false
 		if t%13 == 12 { // constructor contract
 			switch rnd.Intn(3) {
